@@ -57,27 +57,67 @@ structure DItem where
   box : Box
   regions : List RItem
 
-/-- the record read back from the line file for line `l` of region `t` of document `d` -/
-def nrec (d : DItem) (t : RItem) (l : LItem) : DRec :=
+/-- all seven fields of line `l` of region `t` of document `d`, under the column names of the
+    statement -/
+def nrecFull (d : DItem) (t : RItem) (l : LItem) : DRec :=
   [(sDocId, d.id), (sRegionId, t.id), (sLineId, l.id), (sText, l.text),
    (sDocBox, bboxString d.box), (sRegionBox, bboxString t.box), (sLineBox, bboxString l.box)]
 
-def RItem.recs (d : DItem) (t : RItem) : List DRec := t.lines.map (nrec d t)
-def DItem.recs (d : DItem) : List DRec := d.regions.flatMap (RItem.recs d)
+/-- the value of column `h` in a record read from a file ('' when there is no such column) -/
+def dfield (r : DRec) (h : Str) : Str :=
+  match lookupKey h r with
+  | .ok v => v
+  | .error _ => []
 
-theorem lk_docId (d t l) : lookupKey sDocId (nrec d t l) = .ok d.id := by rfl
-theorem lk_regionId (d t l) : lookupKey sRegionId (nrec d t l) = .ok t.id := by
-  simp [lookupKey, nrec, sDocId, sRegionId]
-theorem lk_lineId (d t l) : lookupKey sLineId (nrec d t l) = .ok l.id := by
-  simp [lookupKey, nrec, sDocId, sRegionId, sLineId]
-theorem lk_text (d t l) : lookupKey sText (nrec d t l) = .ok l.text := by
-  simp [lookupKey, nrec, sDocId, sRegionId, sLineId, sText]
-theorem lk_docBox (d t l) : lookupKey sDocBox (nrec d t l) = .ok (bboxString d.box) := by
-  simp [lookupKey, nrec, sDocId, sRegionId, sLineId, sText, sDocBox]
-theorem lk_regionBox (d t l) : lookupKey sRegionBox (nrec d t l) = .ok (bboxString t.box) := by
-  simp [lookupKey, nrec, sDocId, sRegionId, sLineId, sText, sDocBox, sRegionBox]
-theorem lk_lineBox (d t l) : lookupKey sLineBox (nrec d t l) = .ok (bboxString l.box) := by
-  simp [lookupKey, nrec, sDocId, sRegionId, sLineId, sText, sDocBox, sRegionBox, sLineBox]
+/-- the record read back from a line file written under the header list `hs` (any columns, in any
+    order) for line `l` of region `t` of document `d` -/
+def nrec (hs : List Str) (d : DItem) (t : RItem) (l : LItem) : DRec :=
+  hs.map (fun h => (h, dfield (nrecFull d t l) h))
+
+def RItem.recs (hs : List Str) (d : DItem) (t : RItem) : List DRec := t.lines.map (nrec hs d t)
+def DItem.recs (hs : List Str) (d : DItem) : List DRec := d.regions.flatMap (RItem.recs hs d)
+
+/-- looking a header up in a record whose value is a function of the header -/
+theorem lookupKey_map_self {β} (hs : List Str) (f : Str → β) (k : Str) (hk : k ∈ hs) :
+    lookupKey k (hs.map (fun h => (h, f h))) = .ok (f k) := by
+  induction hs with
+  | nil => simp at hk
+  | cons a as ih =>
+    simp only [List.map_cons, lookupKey]
+    by_cases e : a = k
+    · simp [e]
+    · simp only [e, if_false]
+      exact ih (by simpa [Ne.symm e] using hk)
+
+/-- the header list holds the seven columns the rebuilding loop looks up -/
+def HasColumns (hs : List Str) : Prop := ∀ k ∈ columnNames, k ∈ hs
+
+section
+variable {hs : List Str} (hk : HasColumns hs)
+include hk
+
+theorem lk_docId (d t l) : lookupKey sDocId (nrec hs d t l) = .ok d.id := by
+  rw [nrec, lookupKey_map_self _ _ _ (hk _ (by simp [columnNames, baseHeaders]))]; rfl
+theorem lk_regionId (d t l) : lookupKey sRegionId (nrec hs d t l) = .ok t.id := by
+  rw [nrec, lookupKey_map_self _ _ _ (hk _ (by simp [columnNames, baseHeaders]))]
+  simp [dfield, lookupKey, nrecFull, sDocId, sRegionId]
+theorem lk_lineId (d t l) : lookupKey sLineId (nrec hs d t l) = .ok l.id := by
+  rw [nrec, lookupKey_map_self _ _ _ (hk _ (by simp [columnNames, baseHeaders]))]
+  simp [dfield, lookupKey, nrecFull, sDocId, sRegionId, sLineId]
+theorem lk_text (d t l) : lookupKey sText (nrec hs d t l) = .ok l.text := by
+  rw [nrec, lookupKey_map_self _ _ _ (hk _ (by simp [columnNames, baseHeaders]))]
+  simp [dfield, lookupKey, nrecFull, sDocId, sRegionId, sLineId, sText]
+theorem lk_docBox (d t l) : lookupKey sDocBox (nrec hs d t l) = .ok (bboxString d.box) := by
+  rw [nrec, lookupKey_map_self _ _ _ (hk _ (by simp [columnNames, boxHeaders]))]
+  simp [dfield, lookupKey, nrecFull, sDocId, sRegionId, sLineId, sText, sDocBox]
+theorem lk_regionBox (d t l) : lookupKey sRegionBox (nrec hs d t l) = .ok (bboxString t.box) := by
+  rw [nrec, lookupKey_map_self _ _ _ (hk _ (by simp [columnNames, boxHeaders]))]
+  simp [dfield, lookupKey, nrecFull, sDocId, sRegionId, sLineId, sText, sDocBox, sRegionBox]
+theorem lk_lineBox (d t l) : lookupKey sLineBox (nrec hs d t l) = .ok (bboxString l.box) := by
+  rw [nrec, lookupKey_map_self _ _ _ (hk _ (by simp [columnNames, boxHeaders]))]
+  simp [dfield, lookupKey, nrecFull, sDocId, sRegionId, sLineId, sText, sDocBox, sRegionBox, sLineBox]
+
+end
 
 /-! ### what the rebuilt objects must be -/
 
@@ -122,9 +162,10 @@ theorem addLine_last (pre : List RRegion) (R : RRegion) (l : RLine) (b : Box)
   simp [addLine, hb, bind, Except.bind, pure, Except.pure]
 
 /-- the loop body on a well-formed record, all look-ups and box parsers evaluated -/
-theorem rebuildAux_step (cur : Option RDoc) (d : DItem) (t : RItem) (l : LItem) (rs : LStream DRec)
+theorem rebuildAux_step {hs : List Str} (hk : HasColumns hs)
+    (cur : Option RDoc) (d : DItem) (t : RItem) (l : LItem) (rs : LStream DRec)
     (hd : d.box.NonNeg) (ht : t.box.NonNeg) (hl : l.box.NonNeg) :
-    rebuildAux true cur (.ok (nrec d t l) :: rs) =
+    rebuildAux true cur (.ok (nrec hs d t l) :: rs) =
       (let newDoc := match cur with | none => true | some c => decide (c.id ≠ d.id)
        let yielded := if newDoc then (match cur with | none => [] | some c => [c]) else []
        let doc : RDoc := if newDoc then { id := d.id, coords := some (rect d.box), regions := [] }
@@ -134,7 +175,8 @@ theorem rebuildAux_step (cur : Option RDoc) (d : DItem) (t : RItem) (l : LItem) 
        (addLine regions (expLine l)).bind (fun regions =>
          (rebuildAux true (some { doc with regions := regions }) rs).bind (fun rest =>
            .ok (yielded ++ rest)))) := by
-  simp only [rebuildAux, lk_docId, lk_regionId, lk_lineId, lk_text, lk_docBox, lk_regionBox, lk_lineBox,
+  simp only [rebuildAux, lk_docId hk, lk_regionId hk, lk_lineId hk, lk_text hk, lk_docBox hk, lk_regionBox hk,
+    lk_lineBox hk,
     transformBox_bboxString _ hd, transformBox_bboxString _ ht, transformBox_bboxString _ hl,
     bind, Except.bind, pure, Except.pure, if_true, Option.map, boxOfCoords_rect, expLine]
   rfl
@@ -153,13 +195,13 @@ def DItem.OK (d : DItem) : Prop :=
   d.box.NonNeg ∧ d.regions ≠ [] ∧ AdjNe (d.regions.map (·.id)) ∧ ∀ t ∈ d.regions, t.OK
 
 /-- further lines of the current region are appended to it -/
-theorem run_lines (d : DItem) (t : RItem) (hd : d.box.NonNeg) (ht : t.box.NonNeg)
+theorem run_lines {hs : List Str} (hk : HasColumns hs) (d : DItem) (t : RItem) (hd : d.box.NonNeg) (ht : t.box.NonNeg)
     (ls : List LItem) (hls : ∀ l ∈ ls, l.box.NonNeg)
     (done : List LItem) (hdone : done ≠ []) (coords : Option Coords) (pre : List RRegion)
     (rest : LStream DRec) :
     rebuildAux true (some { id := d.id, coords := coords,
                             regions := pre ++ [⟨t.id, regionBox done, done.map expLine⟩] })
-        ((ls.map (nrec d t)).map .ok ++ rest) =
+        ((ls.map (nrec hs d t)).map .ok ++ rest) =
     rebuildAux true (some { id := d.id, coords := coords,
                             regions := pre ++ [⟨t.id, regionBox (done ++ ls), (done ++ ls).map expLine⟩] })
         rest := by
@@ -167,7 +209,7 @@ theorem run_lines (d : DItem) (t : RItem) (hd : d.box.NonNeg) (ht : t.box.NonNeg
   | nil => simp
   | cons l ls ih =>
     simp only [List.map_cons, List.cons_append]
-    rw [rebuildAux_step _ d t l _ hd ht (hls l (by simp))]
+    rw [rebuildAux_step hk _ d t l _ hd ht (hls l (by simp))]
     obtain ⟨b, hb, hrb⟩ := regionBox_spec (done ++ [l]) (by simp)
     have hb' : deriveBox ((⟨t.id, regionBox done, done.map expLine⟩ : RRegion).lines ++ [expLine l]) = .ok b := by
       simpa using hb
@@ -181,11 +223,11 @@ theorem run_lines (d : DItem) (t : RItem) (hd : d.box.NonNeg) (ht : t.box.NonNeg
     cases rebuildAux true _ rest <;> rfl
 
 /-- a region whose id differs from the current one is opened and filled -/
-theorem run_region (d : DItem) (t : RItem) (hd : d.box.NonNeg) (ht : t.OK)
+theorem run_region {hs : List Str} (hk : HasColumns hs) (d : DItem) (t : RItem) (hd : d.box.NonNeg) (ht : t.OK)
     (coords : Option Coords) (pre : List RRegion)
     (hpre : ∀ r, pre.getLast? = some r → r.id ≠ t.id) (rest : LStream DRec) :
     rebuildAux true (some { id := d.id, coords := coords, regions := pre })
-        ((RItem.recs d t).map .ok ++ rest) =
+        ((RItem.recs hs d t).map .ok ++ rest) =
     rebuildAux true (some { id := d.id, coords := coords, regions := pre ++ [expRegion t] }) rest := by
   obtain ⟨htb, hne, hls⟩ := ht
   unfold RItem.recs expRegion
@@ -194,7 +236,7 @@ theorem run_region (d : DItem) (t : RItem) (hd : d.box.NonNeg) (ht : t.OK)
   | cons l0 ls =>
     rw [hl] at hls
     simp only [List.map_cons, List.cons_append]
-    rw [rebuildAux_step _ d t l0 _ hd htb (hls l0 (by simp))]
+    rw [rebuildAux_step hk _ d t l0 _ hd htb (hls l0 (by simp))]
     obtain ⟨b, hb, hrb⟩ := regionBox_spec [l0] (by simp)
     have hnew : (match pre.getLast? with | none => true | some r => decide (r.id ≠ t.id)) = true := by
       cases hp : pre.getLast? with
@@ -205,7 +247,7 @@ theorem run_region (d : DItem) (t : RItem) (hd : d.box.NonNeg) (ht : t.OK)
     simp only [ne_eq, not_true_eq_false, decide_false, Bool.false_eq_true, if_false, hnew, if_true]
     rw [addLine_last pre _ (expLine l0) b hb']
     simp only [Except.bind, List.nil_append]
-    have := run_lines d t hd htb ls (fun x hx => hls x (by simp [hx])) [l0] (by simp) coords pre rest
+    have := run_lines hk d t hd htb ls (fun x hx => hls x (by simp [hx])) [l0] (by simp) coords pre rest
     simp only [List.map_cons, List.map_nil, ← hrb] at this ⊢
     rw [this]
     simp
@@ -217,18 +259,18 @@ theorem adjNe_tail {a : Str} {l : List Str} (h : AdjNe (a :: l)) : AdjNe l := by
   | cons b r => exact h.2
 
 /-- the remaining regions of a document -/
-theorem run_regions (d : DItem) (hd : d.box.NonNeg) (ts : List RItem) (hts : ∀ t ∈ ts, t.OK)
+theorem run_regions {hs : List Str} (hk : HasColumns hs) (d : DItem) (hd : d.box.NonNeg) (ts : List RItem) (hts : ∀ t ∈ ts, t.OK)
     (coords : Option Coords) (pre : List RRegion)
     (hadj : AdjNe (ts.map (·.id)))
     (hpre : ∀ r t, pre.getLast? = some r → ts.head? = some t → r.id ≠ t.id) (rest : LStream DRec) :
     rebuildAux true (some { id := d.id, coords := coords, regions := pre })
-        ((ts.flatMap (RItem.recs d)).map .ok ++ rest) =
+        ((ts.flatMap (RItem.recs hs d)).map .ok ++ rest) =
     rebuildAux true (some { id := d.id, coords := coords, regions := pre ++ ts.map expRegion }) rest := by
   induction ts generalizing pre with
   | nil => simp
   | cons t ts ih =>
     simp only [List.flatMap_cons, List.map_append, List.append_assoc]
-    rw [run_region d t hd (hts t (by simp)) coords pre (fun r hr => hpre r t hr rfl)]
+    rw [run_region hk d t hd (hts t (by simp)) coords pre (fun r hr => hpre r t hr rfl)]
     rw [ih (fun x hx => hts x (by simp [hx])) (pre ++ [expRegion t]) (adjNe_tail hadj) (by
       intro r t' hr ht'
       simp at hr
@@ -242,9 +284,9 @@ theorem run_regions (d : DItem) (hd : d.box.NonNeg) (ts : List RItem) (hts : ∀
 
 /-- a document whose id differs from the current one: the current one is yielded, a new scan
     is built from the document's records -/
-theorem run_doc (d : DItem) (hd : d.OK) (cur : Option RDoc)
+theorem run_doc {hs : List Str} (hk : HasColumns hs) (d : DItem) (hd : d.OK) (cur : Option RDoc)
     (hcur : ∀ c, cur = some c → c.id ≠ d.id) (rest : LStream DRec) :
-    rebuildAux true cur ((DItem.recs d).map .ok ++ rest) =
+    rebuildAux true cur ((DItem.recs hs d).map .ok ++ rest) =
       (rebuildAux true (some (expDoc d)) rest).bind (fun out => .ok (cur.toList ++ out)) := by
   obtain ⟨hdb, hne, hadj, hts⟩ := hd
   unfold DItem.recs expDoc
@@ -260,7 +302,7 @@ theorem run_doc (d : DItem) (hd : d.OK) (cur : Option RDoc)
     | cons l0 ls =>
       rw [hl] at hls
       simp only [List.map_cons, List.cons_append]
-      rw [rebuildAux_step _ d t0 l0 _ hdb htb (hls l0 (by simp))]
+      rw [rebuildAux_step hk _ d t0 l0 _ hdb htb (hls l0 (by simp))]
       have hnewDoc : ∀ (cur : Option RDoc), (∀ c, cur = some c → c.id ≠ d.id) →
           (match cur with | none => true | some c => decide (c.id ≠ d.id)) = true := by
         intro cur hcur
@@ -276,11 +318,11 @@ theorem run_doc (d : DItem) (hd : d.OK) (cur : Option RDoc)
       simp only [List.nil_append] at this
       rw [this]
       simp only [Except.bind]
-      have h1 := run_lines d t0 hdb htb ls (fun x hx => hls x (by simp [hx])) [l0] (by simp)
-        (some (rect d.box)) [] (((ts.flatMap (fun t => t.lines.map (nrec d t))).map .ok) ++ rest)
+      have h1 := run_lines hk d t0 hdb htb ls (fun x hx => hls x (by simp [hx])) [l0] (by simp)
+        (some (rect d.box)) [] (((ts.flatMap (fun t => t.lines.map (nrec hs d t))).map .ok) ++ rest)
       simp only [List.map_cons, List.map_nil, ← hrb, List.nil_append] at h1 ⊢
       rw [h1]
-      have h2 := run_regions d hdb ts (fun x hx => hts x (by simp [hx])) (some (rect d.box))
+      have h2 := run_regions hk d hdb ts (fun x hx => hts x (by simp [hx])) (some (rect d.box))
         [⟨t0.id, regionBox (l0 :: ls), (l0 :: ls).map expLine⟩] (adjNe_tail hadj) (by
           intro r t' hr' ht'
           simp at hr'
@@ -291,20 +333,20 @@ theorem run_doc (d : DItem) (hd : d.OK) (cur : Option RDoc)
             simp at ht'; subst ht'
             exact hadj.1) rest
       unfold RItem.recs at h2
-      simp only [List.singleton_append, List.cons_append, List.nil_append] at h2 ⊢
+      simp only [List.cons_append, List.nil_append] at h2 ⊢
       rw [h2]
       simp only [expRegion, hl, List.map_cons]
       cases cur <;> rfl
 
-theorem rebuild_plan (ds : List DItem) (hok : ∀ d ∈ ds, d.OK) (hadj : AdjNe (ds.map (·.id)))
+theorem rebuild_plan {hs : List Str} (hk : HasColumns hs) (ds : List DItem) (hok : ∀ d ∈ ds, d.OK) (hadj : AdjNe (ds.map (·.id)))
     (cur : Option RDoc) (hcur : ∀ c d, cur = some c → ds.head? = some d → c.id ≠ d.id) :
-    rebuildAux true cur ((ds.flatMap DItem.recs).map .ok) =
+    rebuildAux true cur ((ds.flatMap (DItem.recs hs)).map .ok) =
       .ok (cur.toList ++ ds.map expDoc) := by
   induction ds generalizing cur with
   | nil => cases cur <;> simp [rebuildAux]
   | cons d ds ih =>
     simp only [List.flatMap_cons, List.map_append]
-    rw [run_doc d (hok d (by simp)) cur (fun c hc => hcur c d hc rfl)]
+    rw [run_doc hk d (hok d (by simp)) cur (fun c hc => hcur c d hc rfl)]
     rw [ih (fun x hx => hok x (by simp [hx])) (adjNe_tail hadj) (some (expDoc d)) (by
       intro c d' hc hd'
       simp at hc; subst hc
